@@ -125,6 +125,79 @@ def correspondence(programs, langs, hook, tag="corr"):
     return {"stats": stats, "observed": observed, "mismatches": mismatches, "cases": cases}
 
 
+def all_paths(model):
+    out = []
+
+    def under(p, path):
+        for f in p["fields"]:
+            a = f["attr"]
+            if a and a["kind"] == "object" and a["iner"] and a.get("inline"):
+                under(a["inline"], path + "/" + f["name"])
+        out.append((path, p))
+    for p in model["packets"]:
+        under(p, p["name"])
+    return out
+
+
+REST = "[171; 205]"      # trailing bytes appended after the message for the decode oracle
+VERDICTS = ["Agree", "NotAMessage", "EncFails", "EncDiffers", "DecFails", "DecDiffers", "DecConsumes", "ReencDiffers"]
+
+
+def oracle(observed, langs, tag="oracle", use_model=False, seed=0, only=None):
+    """Run every packet's boundary messages through the observed IR (or the model's) and judge
+    them against the wire specification.  Returns [(program, lang, path, label, registered, kind, verdict, value)]."""
+    import samples
+    body = []
+    index = []
+    for pid, o in observed.items():
+        if "skipped" in o:
+            continue
+        if only is not None and pid not in only:
+            continue
+        mname = "M_" + "".join(c if c.isalnum() else "_" for c in pid)
+        body.append("Definition %s : bmodel := %s." % (mname, g_model(o["model"], o["names"])))
+        smp = samples.Sampler(o["model"], seed)
+        msgs = []
+        for path, p in all_paths(o["model"]):
+            for label, v in smp.messages(p):
+                msgs.append((path, label, v))
+        for k, (path, label, v) in enumerate(msgs):
+            body.append("Definition %s_v%d : value := %s." % (mname, k, samples.g_value(v)))
+        for lang in langs:
+            lo = o["langs"].get(lang)
+            if lo is None or "prog" not in lo:
+                continue
+            pname = "P_%s_%s" % (mname, lang)
+            if use_model:
+                body.append("Definition %s : prog := %s %s." % (pname, COQ_GEN[lang], mname))
+            else:
+                body.append("Definition %s : prog := %s." % (pname, IR.g_prog(lo["prog"])))
+            terms = []
+            for k, (path, label, v) in enumerate(msgs):
+                for reg in (True, False):
+                    r = "true" if reg else "false"
+                    terms.append('verdict_code (check_enc %s %s %s "%s" %s_v%d)' % (r, mname, pname, path, mname, k))
+                    index.append((pid, lang, path, label, reg, "enc", v))
+                    terms.append('verdict_code (check_dec %s %s %s "%s" %s_v%d %s)' % (r, mname, pname, path, mname, k, REST))
+                    index.append((pid, lang, path, label, reg, "dec", v))
+            body.append('Eval vm_compute in ("<<<%s|%s>>>" ++ join "," (map show_nat [%s])).' % (pid, lang, "; ".join(terms)))
+    rc, out, err = core.coq_eval("cases_" + tag, "\n".join(body) + "\n",
+                                 prelude=core.COQ_PRELUDE)
+    if rc != 0:
+        return {"coq_error": err[-3000:]}
+    got = core.parse_results(out)
+    results = []
+    pos = {}
+    for (pid, lang, path, label, reg, kind, v) in index:
+        key = "%s|%s" % (pid, lang)
+        codes = got.get(key, "").split(",")
+        i = pos.get(key, 0)
+        pos[key] = i + 1
+        code = int(codes[i]) if i < len(codes) and codes[i] != "" else -1
+        results.append((pid, lang, path, label, reg, kind, VERDICTS[code] if code >= 0 else "NoResult", v))
+    return {"results": results}
+
+
 if __name__ == "__main__":
     import corpus
     langs = sys.argv[1].split(",")
@@ -141,6 +214,20 @@ if __name__ == "__main__":
         print(res["coq_error"])
         sys.exit(2)
     print(res["stats"], "cases", len(res["cases"]), "mismatches", len(res["mismatches"]))
+    if os.environ.get("ORACLE"):
+        import collections
+        t = core.Timer()
+        orc = oracle(res["observed"], langs, use_model=os.environ.get("ORACLE") == "model")
+        if "coq_error" in orc:
+            print(orc["coq_error"])
+            sys.exit(2)
+        cnt = collections.Counter((r[1], r[5], r[6]) for r in orc["results"])
+        print("oracle", t.s(), "s", dict(cnt))
+        seen = set()
+        for r in orc["results"]:
+            if r[6] not in ("Agree",) and (r[1], r[2].split("/")[-1], r[5], r[6], r[3]) not in seen and len(seen) < int(os.environ.get("SHOW", "6")):
+                seen.add((r[1], r[2].split("/")[-1], r[5], r[6], r[3]))
+                print("  ", r[0], r[1], r[2], r[3], "reg" if r[4] else "noreg", r[5], r[6])
     for pid, o in res["observed"].items():
         if "skipped" in o:
             print("SKIPPED", pid, json.dumps(o["skipped"])[:300])
